@@ -8,3 +8,8 @@ Record params := {
   p_missing : missing_mode;
   p_final : final_mode;
 }.
+
+(* serialization.Serializer.deserialize_value: recurses into lists/dicts (DRecursive) or not (DShallow) *)
+Inductive deser_mode := DRecursive | DShallow | DUnknown.
+(* tasks._task__setstate__: re-creates context/result_meta and re-runs post_init (SSReinit) or not (SSPlain) *)
+Inductive setstate_mode := SSReinit | SSPlain | SSUnknown.
